@@ -548,3 +548,70 @@ def tiny_tables(max_faces=3, max_nodes=6, widths=(3, 4, 5)):
 
     rec([])
     return out
+
+
+# --------------------------------------------------------------------------- single convex faces
+def inscribed_face(k, radius_deg, seed, jitter=0.6):
+    """Convex spherical k-gon inscribed in a small circle of the given angular radius around
+    the north pole (rotate it afterwards).  Corners CCW seen from outside.  Pure function of args."""
+    rng = _rng(seed, k, 41)
+    base = 2 * math.pi * (np.arange(k) + jitter * (rng.random(k) - 0.5)) / k + rng.random() * 2 * math.pi
+    base = np.sort(np.mod(base, 2 * math.pi))
+    r = math.radians(radius_deg)
+    xyz = np.stack([math.sin(r) * np.cos(base), math.sin(r) * np.sin(base), np.full(k, math.cos(r))], axis=1)
+    return xyz
+
+
+def place_face(P, placement, seed):
+    """Rigidly move ring P (k,3) (centred on the north pole) to a named placement.  Returns (Q, tag)."""
+    rng = _rng(seed, 43)
+    k = len(P)
+    c = ref.unit(P.mean(axis=0))
+
+    def to(target_xyz, src=c):
+        R = ref.rotation_taking(src, ref.unit(np.asarray(target_xyz, float)))
+        return P @ R.T
+
+    def ll(lon, lat):
+        return ref.lonlat_to_xyz(lon, lat)
+
+    if placement == "npole_inside":
+        # pole strictly inside but off-centre: move the centre a fraction of the radius away
+        rad = float(ref.angle(c, P[0]))
+        off = rad * float(rng.uniform(0.0, 0.6))
+        az = float(rng.uniform(0, 360))
+        Q = to(ll(az, 90 - math.degrees(off)))
+    elif placement == "spole_inside":
+        rad = float(ref.angle(c, P[0]))
+        off = rad * float(rng.uniform(0.0, 0.6))
+        az = float(rng.uniform(0, 360))
+        Q = to(ll(az, -90 + math.degrees(off)))
+    elif placement in ("corner_npole", "corner_spole"):
+        j = int(rng.integers(0, k))
+        tgt = np.array([0, 0, 1.0 if placement == "corner_npole" else -1.0])
+        R = ref.rotation_taking(P[j], tgt)
+        spin = ref.rot_z(float(rng.uniform(0, 360)))
+        Q = P @ R.T @ spin.T
+        Q[j] = tgt
+    elif placement == "across_180":
+        Q = to(ll(180.0 + float(rng.uniform(-0.3, 0.3)) * math.degrees(float(ref.angle(c, P[0]))), float(rng.uniform(-60, 60))))
+    elif placement == "across_0":
+        Q = to(ll(0.0 + float(rng.uniform(-0.3, 0.3)) * math.degrees(float(ref.angle(c, P[0]))), float(rng.uniform(-60, 60))))
+    elif placement == "origin_inside":
+        rad = math.degrees(float(ref.angle(c, P[0])))
+        Q = to(ll(float(rng.uniform(-0.4, 0.4)) * rad, float(rng.uniform(-0.4, 0.4)) * rad))
+    elif placement == "near_npole":
+        rad = math.degrees(float(ref.angle(c, P[0])))
+        Q = to(ll(float(rng.uniform(0, 360)), 90 - rad * float(rng.uniform(1.15, 1.8))))
+    elif placement == "near_spole":
+        rad = math.degrees(float(ref.angle(c, P[0])))
+        Q = to(ll(float(rng.uniform(0, 360)), -90 + rad * float(rng.uniform(1.15, 1.8))))
+    elif placement == "equator":
+        Q = to(ll(float(rng.uniform(-180, 180)), float(rng.uniform(-3, 3))))
+    else:  # generic
+        Q = P @ ref.rotation_matrix(rng).T
+    return ref.unit(Q)
+
+
+FACE_PLACEMENTS = ["generic", "npole_inside", "spole_inside", "corner_npole", "corner_spole", "across_180", "across_0",
+                   "origin_inside", "near_npole", "near_spole", "equator"]
